@@ -346,15 +346,22 @@ theorem openStep_sty {html : Bool} (S : StyleSpec html Q) (cfg : PartCfg) (hc : 
   · exact withTrue_sty _ s' r (fun t ht => insertNewRun_sty S s t _ h ht) he
   · have := pure_ok he; cases this; exact h
 
-theorem closeStep_sty {html : Bool} (S : StyleSpec html Q) (cfg : PartCfg) (hc : cfg.html = html) (s s' : DC) (x : Xml) (h : Sty Q s)
-    (he : closeStep cfg s x = .ok s') : Sty Q s' := by
-  unfold closeStep at he
+theorem closeStepCore_sty {html : Bool} (S : StyleSpec html Q) (cfg : PartCfg) (hc : cfg.html = html) (s s' : DC) (x : Xml) (h : Sty Q s)
+    (he : closeStepCore cfg s x = .ok s') : Sty Q s' := by
+  unfold closeStepCore at he
   rw [hc] at he
   split at he
   · exact concludePar_sty s s' h he
   · exact commenceRun_sty S s s' none h he
   · exact closeTableCell_sty S.nil cfg.dup s s' x h he
   · have := pure_ok he; subst this; exact h
+
+theorem closeStep_sty {html : Bool} (S : StyleSpec html Q) (cfg : PartCfg) (hc : cfg.html = html) (s s' : DC) (x : Xml) (h : Sty Q s)
+    (he : closeStep cfg s x = .ok s') : Sty Q s' :=
+  closeStep_preserves (P := Sty Q) concludePar_sty cfg x (fun a b ha hb => closeStepCore_sty S cfg hc a b x ha hb) s s' h he
+
+theorem setCaretOpen_sty (s s' : DC) (d : Option Nat) (n : Option Str) (h : Sty Q s) (he : s.setCaretOpen d n = .ok s') : Sty Q s' :=
+  setCaretOpen_preserves (P := Sty Q) concludePar_sty (fun a b d n ha hb => sty_of_frame a b (setCaret_frame a b d n hb) ha) s s' d n h he
 
 theorem finish_sty {html : Bool} (S : StyleSpec html Q) (cfg : PartCfg) (hc : cfg.html = html) (s s' : DC) (h : Sty Q s) (he : finish cfg s = .ok s') : Sty Q s' := by
   unfold finish at he
@@ -372,7 +379,7 @@ theorem walk_sty {html : Bool} (S : StyleSpec html Q) (cfg : PartCfg) (hc : cfg.
   | .elem i p t m a tx tl ks, c, s, s', hs, h => by
     simp only [walk] at h
     obtain ⟨s1, h1, h⟩ := bind_ok h
-    have u1 := sty_of_frame s s1 (setCaret_frame s s1 _ _ h1) hs
+    have u1 := setCaretOpen_sty s s1 _ _ hs h1
     obtain ⟨roots, _, h⟩ := bind_ok h
     obtain ⟨⟨s2, rec⟩, h2, h⟩ := bind_ok h
     have u2 : Sty Q s2 := openStep_sty S cfg hc s1 s2 _ c roots rec u1 h2
